@@ -29,6 +29,17 @@ LATTICES = [(4.0,), (4.0, 5.0), (4.0, 5.0, 6.0), (4.1, 5.2, 6.3, 100.0), (3.0, 3
 BAD_LATTICES = [(), (1.0, 2.0, 3.0, 90.0, 90.0), ("Nonsense", 1.0), ("Cubic", 1.0, 2.0), ("Cubic", "a"), (1.0, "Cubic")]
 
 
+def sibling(lat, rng):
+    """a lattice described by the SAME numbers as `lat`: another crystal system with the same parameter count, the other call form
+    (system named / inferred), or the identical description again"""
+    nums = tuple(x for x in lat if not isinstance(x, str))
+    named = {1: ["Cubic"], 2: ["Tetragonal", "Hexagonal"] + (["Rhombohedral"] if 0 < nums[-1] < 120 else []), 3: ["Orthorhombic"],
+             4: ["Monoclinic"], 6: ["Triclinic"]}.get(len(nums), [])
+    forms = [(n,) + nums for n in named] + [lat]
+    forms.append(nums)
+    return rng.choice(forms)
+
+
 def rodrigues(axis, angle):
     k = np.asarray(axis, float); k = k / np.linalg.norm(k)
     K = np.array([[0, -k[2], k[1]], [k[2], 0, -k[0]], [-k[1], k[0], 0]])
@@ -76,6 +87,7 @@ def run_history(rng, maxlen, thorough, record):
     from diffcalc.hkl.geometry import Position
     from diffcalc.util import DiffcalcException
     ub = UBCalculation("t")
+    last_lat = [None]
     record("ub.reset", ub, "ok", None)
     for _ in range(rng.randint(1, maxlen)):
         k = gen_op(rng, thorough)
@@ -85,7 +97,10 @@ def run_history(rng, maxlen, thorough, record):
             with quiet():
                 if k == "setLattice":
                     lat = rng.choice(LATTICES)
+                    if last_lat[0] is not None and rng.random() < 0.3:
+                        lat = sibling(last_lat[0], rng)        # same numbers, possibly another system: the cell is what the call says now
                     ub.set_lattice("x", *lat)
+                    last_lat[0] = lat
                     line = "ub setLattice " + m2w(ub.crystal.B); info["lattice"] = lat
                 elif k == "setLatticeBad":
                     lat = rng.choice(BAD_LATTICES); info["lattice"] = lat
@@ -140,6 +155,8 @@ def run_history(rng, maxlen, thorough, record):
                 elif k == "fitUb":
                     if ub.crystal is None or ub.U is None:
                         continue
+                    if not thorough and len(ub.crystal.get_lattice_params()[1]) != 6:
+                        continue        # quick tier: the closed-form (triclinic) fit only; an SLSQP fit on random data can take seconds
                     ub.reflist.reflections.clear()
                     from diffcalc.hkl.geometry import get_rotation_matrices
                     B = ub.crystal.B
